@@ -108,7 +108,8 @@ impl Val {
     /// in its structure (indicating a self-referential constraint placeholder).
     pub fn contains_empty_constraint(&self) -> bool {
         match self {
-            Val::Constraint(cv) => cv.arms.is_empty(),
+            // The placeholder itself, or a named constraint that holds one.
+            Val::Constraint(cv) => cv.arms.is_empty() || cv.contains_self_ref(),
             Val::List(items) => items.iter().any(|v| v.contains_empty_constraint()),
             Val::Tuple(fields) => fields.iter().any(|(_, v)| v.contains_empty_constraint()),
             _ => false,
